@@ -22,6 +22,7 @@ EXPLANATION = (
     "C04.8 the catch-all tree bin (every size above compute_tree_index's bound) is walked with shift 0 in leftshift_for_tree_index, so the bits that order its tree are kept. "
     "C04.10 top spans its segment: init_top gets (new mapping - foot) for a fresh mapping and topsize +/- exactly the change when the segment holding top grows or shrinks in place. "
     "C04.4 also: the tree attempts depend on allocator state only through the tests that make them necessary and possible, and tmalloc_large searches the larger bins whenever nothing fitting was found; C04.6 also: a block obtained inside Dlmalloc::realloc is, on every path, the result or freed. "
+    "C04.11 syscall_alloc reports exactly the length it mapped and sys_alloc sizes its request from the request alone. "
     "NOT decided: the bound itself (a quantitative statement about fragmentation over arbitrary histories) and VmSize behaviour.")
 ASSUMPTIONS = ["dlmalloc's bin/tree invariants (not established here)"]
 
@@ -459,6 +460,37 @@ def run_one(ck, prog):
             ck.ob("C04.6", f"realloc|block-from-{t['callee'].split('::')[-1]}@{n_r}|returned-or-freed", not lost, fn=rl["path"], site=cr.site(bb),
                   detail="a block obtained inside realloc can reach a return on which it is neither the result nor freed")
         ck.floor("C04.6", "allocating calls in realloc", n_r, 2)
+
+    # ---- C04.11 what is mapped is what is accounted: syscall_alloc reports exactly the length it handed to mmap (a tail that was mapped but
+    # not reported is never handed out, trimmed or unmapped), and sys_alloc asks for an amount that depends on the request alone (growth
+    # sized by the allocator's own high-water mark feeds back on itself)
+    sy = prog.fns.get(D + "syscall_alloc")
+    if ck.anchor("C04.11", "syscall_alloc", sy):
+        cy = prog.ctx(sy)
+        from ..engine.cfg import is_raw_syscall as _raw
+        mm = [bb for bb, t in cy.cfg.calls(lambda t: _raw(t.get("callee")))]
+        ok11 = False
+        why11 = f"raw syscalls in syscall_alloc: {len(mm)}"
+        if len(mm) == 1:
+            la = cy.args(mm[0])
+            ln = canon(strip_casts(la[2])) if len(la) > 2 else None
+            reported = set()
+            for rb, e in cy.ret_expr().items():
+                for z in walk_deep(e, cy.prov, limit=80):
+                    if z[0] == "agg" and z[1] == "tuple" and len(z[3]) == 3:
+                        reported.add(canon(strip_casts(z[3][1])))
+            reported.discard("0")
+            ok11 = ln is not None and reported == {ln}
+            why11 = f"mmap is asked for {ln} bytes, the caller is told {sorted(reported)}"
+        ck.ob("C04.11", "syscall_alloc-reports-the-length-it-mapped", ok11, fn=sy["path"], detail=why11)
+    sa11 = prog.fns.get(DL + "sys_alloc")
+    if sa11 is not None:
+        ca = prog.ctx(sa11)
+        for bb, t in ca.cfg.calls(lambda t: t.get("callee") == D + "syscall_alloc"):
+            a = ca.args(bb)
+            state = sorted({str(z[2]) for z in walk_deep(a[0], ca.prov, limit=120) if z[0] == "field" and mentions(z[1], ca.prov, lambda w: w[0] == "param" and w[1] == 1)}) if a else ["?"]
+            ck.ob("C04.11", "growth-depends-on-the-request-alone", not state, fn=sa11["path"], site=ca.site(bb),
+                  detail=f"the amount requested from the kernel depends on allocator state {state}; it must be computed from the request (plus constants) only")
 
     # ---- C04.5 segments not forgotten ------------------------------------------------------------------------------------------------------
     ad = prog.fns.get(DL + "add_segment")
